@@ -530,8 +530,9 @@ def evaluate(instances, jobs=None):
     from concurrent.futures import ProcessPoolExecutor
     jobs = jobs or min(K.JOBS, 8)
     if len(instances) > 1 and jobs > 1:
-        with ProcessPoolExecutor(max_workers=jobs) as ex:
-            per = list(ex.map(run_instance, instances, chunksize=1))
+        # forked children, a few in flight (an executor breaks when GLPK aborts a worker: bflib/sgf.c)
+        import cobra.sampling  # noqa: F401
+        per = [v if k == "ok" else [] for k, v in K.map_isolated(run_instance, instances, chunk=1, workers=jobs)]
     else:
         per = [run_instance(i) for i in instances]
     obs, owner = [], []
